@@ -44,6 +44,10 @@ pub fn tiny_roots() -> Vec<String> {
         "k1K5/p7/P7/8/8/8/8/8 b - - 0 1",
         "k1K5/p7/P7/8/8/8/8/8 w - - 0 1",
         "k7/2K5/8/8/8/8/8/8 w - - 0 1",
+        // forced lines (see c15.rs): both sides have exactly one legal move on every ply once the a-pawn has advanced
+        "5b1k/4pPp1/p3P1p1/6P1/P5p1/4p1P1/4PpP1/5B1K w - - 0 1",
+        "5b1k/4pPp1/p3P1p1/P5P1/6p1/4p1P1/4PpP1/5B1K b - - 0 1",
+        "5b1k/4pPp1/4P1p1/p5P1/6p1/P3p1P1/4PpP1/5B1K b - - 0 1",
     ] {
         v.push(f.to_string());
     }
